@@ -83,6 +83,10 @@ def from_problog(x):
             return Fl(v)
         return S(str(v))
     if isinstance(x, Term):
+        if isinstance(x.functor, Term) and not isinstance(x.functor, Constant) and x.functor.arity == 0 \
+                and isinstance(x.functor.functor, str):
+            # functor/3 builds Term(<atom Term>, ...): the functor slot holds a Term; it prints and compares as its name
+            return T(x.functor.functor, *[from_problog(a) for a in x.args])
         if not isinstance(x.functor, str):
             return ("weird", repr(x))
         return T(x.functor, *[from_problog(a) for a in x.args])
@@ -327,7 +331,8 @@ def grids():
     a, b, foo, bar = T("a"), T("b"), T("foo"), T("bar")
     ints = [I(n) for n in (-2, -1, 0, 1, 2, 3)]
     bad = [Fl(1.5), a, NEG(I(2))]
-    g = []
+    g = [("succ", (V(0), I(0))), ("length", (V(0), I(-1))), ("arg", (I(1), T("foo", V(0), b), a)),
+         ("functor", (V(0), foo, I(-1)))]      # canonical witnesses of the known deviation classes first
     for l in ints[1:5] + [V(0)] + bad:
         for h in ints[1:] + [V(0), Fl(2.0)]:
             for x in [V(0)] + ints + [I(4), Fl(1.0), a]:
@@ -359,14 +364,14 @@ def grids():
     return g
 
 
-TYPE_TESTS = {"var": "T_var", "nonvar": "T_nonvar", "atom": "T_atom", "atomic": "T_atomic", "number": "T_number",
-              "integer": "T_integer", "float": "T_float", "compound": "T_compound", "callable": "T_callable",
+TYPE_TESTS = {"integer": "T_integer", "var": "T_var", "nonvar": "T_nonvar", "atom": "T_atom", "atomic": "T_atomic", "number": "T_number",
+              "float": "T_float", "compound": "T_compound", "callable": "T_callable",
               "is_list": "T_is_list", "ground": "T_ground"}
 
 
 def type_terms():
     a, b = T("a"), T("b")
-    return [V(0), a, T("[]"), T("'hello world'"), I(1), I(-1), I(0), Fl(1.5), Fl(-1.5), S("str"), T("foo", a), T("foo", V(0)),
+    return [NEG(I(7)), L(a, tail=V(0)), V(0), a, T("[]"), T("'hello world'"), I(1), I(-1), I(0), Fl(1.5), Fl(-1.5), S("str"), T("foo", a), T("foo", V(0)),
             T("-", I(1)), NEG(I(1)), NEG(Fl(1.5)), NEG(a), NEG(V(0)), T("'-'", I(1), I(2)), L(a), L(a, tail=V(0)), L(a, b, tail=V(0)),
             L(a, tail=b), L(V(0)), T("f", T("g", V(0))), T("f", T("g", a)), L(L(a, tail=V(0))), T(".", a), T(".")]
 
